@@ -52,7 +52,11 @@ package hopserver
 // The session is authorised only if AuthorizeKey accepted the (user, key) pair,
 // or - with grants enabled - AuthorizeKeyAuthGrant accepted the same pair.
 //@ func (sess *hopSession) checkAuthorization() (ok bool)
-//@   property C05
+//@   property C05 C07
+// (C07) a session admitted through grants is MARKED as such - the mark is what makes startCodex ask checkCmd - and holds
+// exactly the grants AuthorizeKeyAuthGrant consumed for it; a session admitted by a listed key consumes no grants
+//@   ensures ok && resultof(hopserver.HopServer.AuthorizeKey, err) != nil ==> sess.usingAuthGrant && same(sess.authorizedActions, resultof(hopserver.HopServer.AuthorizeKeyAuthGrant, ags))
+//@   ensures ok && resultof(hopserver.HopServer.AuthorizeKey, err) == nil ==> !called(hopserver.HopServer.AuthorizeKeyAuthGrant)
 //@   ensures ok ==> called(hopserver.HopServer.AuthorizeKey)
 //@   ensures ok ==> (resultof(hopserver.HopServer.AuthorizeKey, err) == nil ||
 //@        (called(hopserver.HopServer.AuthorizeKeyAuthGrant) && resultof(hopserver.HopServer.AuthorizeKeyAuthGrant, err) == nil &&
